@@ -1830,6 +1830,11 @@ class Interp:
                 return obj.cls
             if name == "__dict__":
                 return obj.fields
+            if (getattr(obj.cls, "ext_qual", None) or "").startswith("spec:"):
+                # a specification stand-in object: its nominal methods win over methods inherited from a repository base class given to it for isinstance()
+                nm0 = self.reg.nominal_methods.get(obj.cls.qualname, {}).get(name)
+                if nm0 is not None:
+                    return BuiltinFn(f"{obj.cls.name}.{name}", lambda it, a, k, _o=obj, _f=nm0: _f(it, _o, a, k))
             m = obj.cls.find_method(name)
             if m is not None:
                 owner, (node, k) = m
